@@ -36,7 +36,7 @@ func (c16) ID() string { return "C16" }
 func (c16) Plan(tier string) fw.Plan {
 	p := fw.Plan{
 		Batches: 16, Cases: 12000, TimeoutSec: 900, Level: "exploration",
-		Rule: "one case = one graph of 1–6 linked dag-cbor blocks and a sequence of 1–5 focused transforms applied one after another, each with a target path drawn from: an existing map value, an existing list element, a new map key, list append '-', missing parents with and without createParents, through one or more links, beyond scalars, out-of-range and non-numeric list segments, the empty path; operation ∈ {replace with a generated value, identity, delete (nil)}; occasionally the loader answers SkipMe or fails for a block. Oracle: reference functional update over the abstract graph (lib to this file) giving the expected result tree, the expected callback argument, whether an error is expected, and the set of blocks that must be written. Monitors: result read-out = reference (every untouched entry equal and in order, inserted key/element last); callback argument = value at the target (nil for a new position); read-out digest of the INPUT tree unchanged; blocks written to storage = re-encoded spine blocks with reference links; loading everything from the new root through the link system reproduces the reference graph. Second family: WalkTransforming with random selectors over link-free trees: identity ⇒ equal tree; matched nodes (the reference walk's matches not below an earlier replaced match) replaced, everything else equal in order. A separate probe records WalkTransforming across a link (known finding). Non-trivial: target depth ≥2 or through a link; distinct by hash of (root, path, op).",
+		Rule:        "one case = one graph of 1–6 linked dag-cbor blocks and a sequence of 1–5 focused transforms applied one after another, each with a target path drawn from: an existing map value, an existing list element, a new map key, list append '-', missing parents with and without createParents, through one or more links, beyond scalars, out-of-range and non-numeric list segments, the empty path; operation ∈ {replace with a generated value, identity, delete (nil)}; occasionally the loader answers SkipMe or fails for a block. Oracle: reference functional update over the abstract graph (lib to this file) giving the expected result tree, the expected callback argument, whether an error is expected, and the set of blocks that must be written. Monitors: result read-out = reference (every untouched entry equal and in order, inserted key/element last); callback argument = value at the target (nil for a new position); read-out digest of the INPUT tree unchanged; blocks written to storage = re-encoded spine blocks with reference links; loading everything from the new root through the link system reproduces the reference graph. Second family: WalkTransforming with random selectors over link-free trees: identity ⇒ equal tree; matched nodes (the reference walk's matches not below an earlier replaced match) replaced, everything else equal in order. A separate probe records WalkTransforming across a link (known finding). Non-trivial: target depth ≥2 or through a link; distinct by hash of (root, path, op).",
 		Assumptions: []string{"reference update semantics in this file follow the FocusedTransform documentation: replace in place, nil = remove, missing map key / '-' = append last, parents only with createParents, links followed only when the path continues below them"},
 		MinEvents:   []string{"transforms", "transforms_through_links", "deletes", "inserts", "identity_transforms", "expected_errors", "callback_args_checked", "input_unchanged_checks", "blocks_written_checked", "reload_checks", "walk_transforms", "walk_transform_replacements"},
 	}
@@ -614,7 +614,9 @@ func c16WalkTransform(c *fw.Ctx, rng *fw.RNG) {
 	if err != nil {
 		return
 	}
-	c.SetCase(func() any { return map[string]any{"family": "walk-transform", "root": root.Dump(), "selector": s.String()} })
+	c.SetCase(func() any {
+		return map[string]any{"family": "walk-transform", "root": root.Dump(), "selector": s.String()}
+	})
 	c.Count("walk_transforms", 1)
 	// identity
 	var out datamodel.Node
